@@ -32,13 +32,15 @@ pub mod error {
     pub type Result<T> = core::result::Result<T, Error>;
 }
 
-// Rc<XmlItem>: a handle on an item of the same document; only its id matters here
-pub struct ItemRef { pub ident: usize }
+// Rc<XmlItem>: a handle on an item of the same document: the item's id and WHICH allocation the handle is (the DOM layer
+// wraps an item in a fresh Rc for every call; Context::node(id) resolves ids through Weak pointers to one allocation)
+pub struct ItemRef { pub ident: usize, pub alloc: Ghost<int> }
 impl ItemRef {
     pub fn id(&self) -> (r: usize) ensures r == self.ident { self.ident }
 }
 impl Clone for ItemRef {
-    fn clone(&self) -> (r: Self) ensures r == *self { ItemRef { ident: self.ident } }
+    #[verifier::external_body]
+    fn clone(&self) -> (r: Self) ensures r == *self { unimplemented!() }
 }
 
 pub open spec fn without_id(s: Seq<usize>, x: usize) -> Seq<usize> { s.filter(|v: usize| v != x) }
@@ -49,11 +51,12 @@ pub struct Parent {
     pub ident: usize,
     pub children: Ghost<Seq<usize>>,   // ids of the child list
     pub order: Ghost<Seq<usize>>,      // the document's order vector (ids), shared through the Context
+    pub registered: Ghost<Map<usize, int>>,   // Context.id_map: which allocation an id resolves to (shared through the Context)
 }
 
 impl Parent {
     pub open spec fn same_state(self, other: Parent) -> bool {
-        self.children@ == other.children@ && self.order@ == other.order@ && self.ident == other.ident
+        self.children@ == other.children@ && self.order@ == other.order@ && self.ident == other.ident && self.registered@ == other.registered@
     }
 
     // ---- assumed callees: the per-type primitives (XmlElement / XmlDocument / XmlAttribute implement them) ----
@@ -77,7 +80,7 @@ impl Parent {
     // removes the child with that id from the child list (the order vector is not its business)
     #[verifier::external_body]
     pub fn delete_by_id(&mut self, id: usize) -> (r: Option<ItemRef>)
-        ensures final(self).order@ == old(self).order@, final(self).ident == old(self).ident,
+        ensures final(self).order@ == old(self).order@, final(self).ident == old(self).ident, final(self).registered@ == old(self).registered@,
                 r is None ==> final(self).children@ == old(self).children@,
                 r is Some ==> r->Some_0.ident == id && final(self).children@ == without_id(old(self).children@, id),
     { unimplemented!() }
@@ -86,7 +89,7 @@ impl Parent {
     // implementations are meant to guarantee)
     #[verifier::external_body]
     pub fn insert_by_id(&mut self, value: ItemRef, id: Option<usize>) -> (r: error::Result<ItemRef>)
-        ensures final(self).order@ == old(self).order@, final(self).ident == old(self).ident,
+        ensures final(self).order@ == old(self).order@, final(self).ident == old(self).ident, final(self).registered@ == old(self).registered@,
                 r is Err ==> final(self).children@ == old(self).children@,
                 r is Ok ==> r->Ok_0 == value && final(self).children@.contains(value.ident),
     { unimplemented!() }
@@ -95,20 +98,27 @@ impl Parent {
     // document's shared order vector (verified in units/c14_order.py); None = refused, nothing changed
     #[verifier::external_body]
     pub fn order_set_after(&mut self, value: &ItemRef, id: usize) -> (r: Option<usize>)
-        ensures final(self).children@ == old(self).children@, final(self).ident == old(self).ident,
+        ensures final(self).children@ == old(self).children@, final(self).ident == old(self).ident, final(self).registered@ == old(self).registered@,
                 r is None ==> final(self).order@ == old(self).order@,
                 r is Some ==> final(self).order@.contains(value.ident),
     { unimplemented!() }
     #[verifier::external_body]
     pub fn order_set_before(&mut self, value: &ItemRef, id: usize) -> (r: Option<usize>)
-        ensures final(self).children@ == old(self).children@, final(self).ident == old(self).ident,
+        ensures final(self).children@ == old(self).children@, final(self).ident == old(self).ident, final(self).registered@ == old(self).registered@,
                 r is None ==> final(self).order@ == old(self).order@,
                 r is Some ==> final(self).order@.contains(value.ident),
     { unimplemented!() }
     #[verifier::external_body]
     pub fn order_clear(&mut self, value: &ItemRef)
-        ensures final(self).children@ == old(self).children@, final(self).ident == old(self).ident,
+        ensures final(self).children@ == old(self).children@, final(self).ident == old(self).ident, final(self).registered@ == old(self).registered@,
                 final(self).order@ == without_id(old(self).order@, value.ident),
+    { unimplemented!() }
+
+    // self.context().register(&value): Context.id_map[value.id] now points at THIS handle
+    #[verifier::external_body]
+    pub fn ctx_register(&mut self, value: &ItemRef)
+        ensures final(self).children@ == old(self).children@, final(self).ident == old(self).ident, final(self).order@ == old(self).order@,
+                final(self).registered@ == old(self).registered@.insert(value.ident, value.alloc@),
     { unimplemented!() }
 
     //@@ append
@@ -296,6 +306,7 @@ R_MUT = Rule('R14', r'\(&self\b', '(&mut self', '&self of a method that mutates 
 R_RC = Rule('R11', r'Rc<XmlItem>', 'ItemRef', 'Rc<XmlItem> -> environment handle carrying the id (A4)')
 R_AFTER = Rule('R43', r'value\s*\.set_order_after\(id\)', 'self.order_set_after(&value, id)', 'the item edits the order vector of the SAME document: the shared state is made explicit on the receiver')
 R_BEFORE = Rule('R43', r'value\s*\.set_order_before\(id\)', 'self.order_set_before(&value, id)', 'same')
+R_REG = Rule('R43', r'self\.context\(\)\.register\(&value\);', 'self.ctx_register(&value);', 'Context::register on the shared id map: made explicit on the receiver')
 R_CLEAR = Rule('R43', r'v\.clear_order\(\);', 'self.order_clear(&v);', 'same')
 UNCHANGED = 'final(self).same_state(*old(self))'
 
@@ -304,16 +315,18 @@ def build():
     fns = {}
     P = ['C13']
     SR = [PUB, R_MUT, R_RC]
-    fns['append'] = Fn(FI, TR, 'append', props=P, sig_rules=SR, rules=[R_AFTER], label='HasChildren::append (trait default)',
+    fns['append'] = Fn(FI, TR, 'append', props=P, sig_rules=SR, rules=[R_AFTER, R_REG], label='HasChildren::append (trait default)',
                        ensures=[('C13+C14:refused_call_changes_nothing', f'r is Err ==> {UNCHANGED}'),
-                                ('C13:accepted_child_is_in_the_list_and_numbered', 'r is Ok ==> final(self).children@.contains(value.ident)')])
+                                ('C13:accepted_child_is_in_the_list_and_numbered', 'r is Ok ==> final(self).children@.contains(value.ident)'),
+                                ('C12:the_listed_handle_is_the_one_the_id_resolves_to', 'r is Ok ==> final(self).registered@.dom().contains(value.ident) && final(self).registered@[value.ident] == value.alloc@')])
     fns['delete'] = Fn(FI, TR, 'delete', props=P, sig_rules=SR, rules=[R_CLEAR], label='HasChildren::delete (trait default)',
                        ensures=[('C13:unknown_child_changes_nothing', f'r is None ==> {UNCHANGED}'),
                                 ('C13+C14:removed_child_loses_its_key', 'r is Some ==> final(self).children@ == without_id(old(self).children@, id) && final(self).order@ == without_id(old(self).order@, id)')])
-    fns['insert_before'] = Fn(FI, TR, 'insert_before', props=P, sig_rules=SR, rules=[R_BEFORE], label='HasChildren::insert_before (trait default)',
+    fns['insert_before'] = Fn(FI, TR, 'insert_before', props=P, sig_rules=SR, rules=[R_BEFORE, R_REG], label='HasChildren::insert_before (trait default)',
                               ensures=[('C13+C14:refused_call_changes_nothing', f'r is Err ==> {UNCHANGED}'),
                                        ('C13:unknown_reference_is_refused', '!old(self).children@.contains(id) ==> r is Err'),
-                                       ('C13:accepted_child_is_in_the_list_and_numbered', 'r is Ok ==> final(self).children@.contains(value.ident)')])
+                                       ('C13:accepted_child_is_in_the_list_and_numbered', 'r is Ok ==> final(self).children@.contains(value.ident)'),
+                                       ('C12:the_listed_handle_is_the_one_the_id_resolves_to', 'r is Ok ==> final(self).registered@.dom().contains(value.ident) && final(self).registered@[value.ident] == value.alloc@')])
     fns['insert_after'] = Fn(FI, TR, 'insert_after', props=P, sig_rules=SR, label='HasChildren::insert_after (trait default)',
                              rules=[Rule('R28', r'child\.id\(\)', 'child.id()', 'unchanged')],
                              ensures=[('C13+C14:refused_call_changes_nothing', f'r is Err ==> {UNCHANGED}'),
@@ -340,12 +353,15 @@ def build():
                ' && (forall|i: int, j: int| 0 <= i < final(doc).children@.len() && 0 <= j < final(doc).children@.len() && #[trigger] ids(final(doc).children@)[i] == value.ident && #[trigger] ids(final(doc).children@)[j] == value.ident ==> i == j),')
     fns['document_insert_by_id'] = Fn(
         FI, 'impl HasChildren for XmlDocument', 'insert_by_id', props=P, sig_rules=SRP, label='XmlDocument::insert_by_id',
-        rules=[Rule('R45', r'fn add_or_insert\(doc: &XmlDocument, value: Rc<XmlItem>, id: Option<usize>\) \{',
-                    f'fn add_or_insert(doc: &mut XmlDocument, value: ItemRef, id: Option<usize>) {ADD_REQ} {ADD_ENS} {{',
-                    'nested helper: &XmlDocument mutated through RefCell -> &mut (A4), Rc<XmlItem> -> ItemRef; its contract is spliced here (specification only)'),
-               Rule('R43', r'value\.remove_from_parent\(\);', 'doc.world_remove_from_parent(&value);', 'shared world made explicit on the receiver'),
-               Rule('R43', r'value\.set_parent_id\(Some\(doc\.id\(\)\)\);', 'let __me = doc.id(); doc.world_set_parent_id(&value, Some(__me));', 'same'),
-               Rule('R11', r'doc\.children\.borrow_mut\(\)\.', 'doc.children.', 'RefCell borrow dropped (A4)'),
+        rules=[Rule('R45', r'fn add_or_insert\(doc: &XmlDocument, value: Rc<XmlItem>, id: Option<usize>\) \{(.*?)\n        \}',
+                    lambda m: (f'fn add_or_insert(doc: &mut XmlDocument, value: ItemRef, id: Option<usize>) {ADD_REQ} {ADD_ENS} {{'
+                               + m.group(1).replace('value.remove_from_parent();', 'doc.world_remove_from_parent(&value);')
+                                           .replace('value.set_parent_id(Some(doc.id()));', 'let __me = doc.id(); doc.world_set_parent_id(&value, Some(__me));')
+                                           .replace('doc.children.borrow_mut().', 'doc.children.')
+                               + '\n        }'),
+                    'nested helper: &XmlDocument mutated through RefCell -> &mut (A4), Rc<XmlItem> -> ItemRef, world edits on `doc`; its contract is spliced here (specification only)'),
+               Rule('R43', r'value\.remove_from_parent\(\);', 'self.world_remove_from_parent(&value);', 'outside the helper the shared world is the receiver'),
+               Rule('R43', r'value\.set_parent_id\(Some\(self\.id\(\)\)\);', 'let __me = self.id(); self.world_set_parent_id(&value, Some(__me));', 'same'),
                Rule('R44', r'match &\*value \{', 'match value.item() {', 'deref of Rc<XmlItem> -> accessor of the environment handle')],
         requires=[('reference_child_exists_and_is_not_the_value', 'id is Some ==> id->Some_0 != value.ident && ids(old(self).children@).contains(id->Some_0)')],
         ensures=[('C13+C12:refused_call_changes_nothing', 'r is Err ==> final(self).children@ == old(self).children@ && final(self).parent_of@ == old(self).parent_of@'),
